@@ -185,14 +185,20 @@ where
                     span.record("total_operations", outbound_operations);
                     span.record("total_bytes", outbound_bytes);
 
-                    let message = if outbound_bytes > 0 {
-                        LogSyncMessage::PreSync {
-                            total_operations: outbound_operations,
-                            total_bytes: outbound_bytes,
-                        }
+                    let (message, remote_needs) = if outbound_bytes > 0 {
+                        (
+                            LogSyncMessage::PreSync {
+                                total_operations: outbound_operations,
+                                total_bytes: outbound_bytes,
+                            },
+                            remote_needs,
+                        )
                     } else {
+                        // Nothing (left) to send, for example because the store was pruned since
+                        // we announced our heights: "Done" is our last sync message, so the
+                        // sync loop must neither send operations nor a second "Done".
                         sync_done_sent = true;
-                        LogSyncMessage::Done
+                        (LogSyncMessage::Done, LogRanges::default())
                     };
 
                     sink.send(message)
